@@ -189,6 +189,13 @@ class NodeVisitor:
 
         return visitor(node)
 
+    def __getstate__(self):
+        # The cache holds methods bound to this object; a copy (or an
+        # unpickled instance) must look up its own.
+        state = self.__dict__.copy()
+        state.pop("_method_cache", None)
+        return state
+
     def generic_visit(self, node: Node):
         """Called if no explicit visitor function exists for a
         node. Implements preorder visiting of the node.
